@@ -371,6 +371,9 @@ func c13RPC(rep *vrep.Report, t *testing.T, n int) {
 		vmust(err)
 	}
 	gc := svc.getAccountGroup()
+	// the service appends its own device entry and chain-key announcement asynchronously after start: take the
+	// reference order only when that has happened (on a loaded machine it can be late)
+	waitOwnAnnouncement(gc)
 	metaOrder, msgOrder := logHashes(gc.MetadataStore()), logHashes(gc.MessageStore())
 	unknown := cidOfBytes([]byte("unknown-entry")).Bytes()
 	run := func(store string, order []cid.Cid, call func(since, until []byte, untilNow, reverse bool, expect int, patience time.Duration) ([]string, error)) {
